@@ -16,11 +16,11 @@ import tempfile
 
 PROPERTY = "C14"
 LEVEL = "exploration"
-DATES = ["2015-01-01", "2017-03-01", "2019-07-01", "2021-01-01", "2022-10-01", "2023-07-01", "2024-01-01", "2005-01-01", "1998-01-01"]
+DATES = ["2015-01-01", "2017-03-01", "2019-07-01", "2021-01-01", "2022-10-01", "2023-07-01", "2024-01-01", "2005-01-01", "2005-07-01", "2010-01-01", "1998-01-01"]
 TARGET_SETS = ["default", ["eink_st_y_sn", "soli_st_y_sn"], ["kindergeld_m", "kinderzuschl_m_bg", "wohngeld_m_wthh"],
                ["ges_rente_m", "sozialv_beitr_arbeitnehmer_m"], ["arbeitsl_geld_2_m_bg", "bg_id", "fg_id"],
                ["elterngeld_m", "unterhaltsvors_m", "ges_pflegev_beitr_arbeitnehmer_m"]]
-OLD_TARGETS = [["kindergeld_m"], ["eink_st_y_sn"]]
+OLD_TARGETS = [["kindergeld_m"], ["eink_st_y_sn"], "feasible", "feasible"]
 GROUPS = ["eink_st", "sozialv_beitr", "kindergeld", "arbeitsl_geld_2", "wohngeld", "ges_rente"]
 REFORM_FUNCS = ["kindergeld_m", "ges_pflegev_beitr_satz_arbeitnehmer", "eink_st_y_sn", "sozialv_beitr_arbeitnehmer_m"]
 VEC_FUNCS = ["ges_pflegev_beitr_satz_arbeitnehmer", "kindergeld_m", "eink_st_y_sn", "ges_rentenv_beitr_arbeitnehmer_m",
@@ -73,8 +73,88 @@ def gen_history(rng, n_ops):
 
 
 def plan(tier, seed):
+    from vf.checks.c03 import rule_catalogue
+
     n_hist, n_ops = (20, 12) if tier == "quick" else (150, 25)
-    return [dict(k=k, n_ops=n_ops, seed=seed) for k in range(n_hist)]
+    items = [dict(k=k, n_ops=n_ops, seed=seed) for k in range(n_hist)]
+    # argument purity of every rule of every validity period (1984-): the rule as only target on generated columns
+    cat = rule_catalogue()
+    batch = []
+    for key, (name, act) in sorted(cat.items()):
+        if not act:
+            continue
+        pick = sorted({act[-1], act[len(act) // 2]}) if tier == "quick" else sorted({act[0], act[-1], act[len(act) // 2], act[len(act) // 4]})
+        for d in pick:
+            batch.append(dict(rule=key, name=name, date=str(d)))
+    for i in range(0, len(batch), 40):
+        items.append(dict(kind="rule_purity", rules=batch[i:i + 40], seed=seed))
+    return items
+
+
+def _rule_purity(item):
+    """Every rule, alone, through the public API on generated argument columns: the caller's params, data and
+    functions must be untouched afterwards (deep snapshots incl. array bytes)."""
+    import copy
+    import datetime
+    import warnings
+
+    import numpy as np
+    import pandas as pd
+
+    from vf import env, popgen, shadow
+    from vf.checks.c03 import _rule_key, arg_type, gen_values
+    from vf.core import crc, rng_for
+
+    res = dict(kind="rule_purity", ops=0, sims=0, violations=[], singles=0, repeats_compared=0, state_changes=[], registry_growth=0,
+               op_kinds={}, distinct_calls=0, sample=[], history=-1, rules_run=0, rules_skipped=0)
+    for it in item["rules"]:
+        d = datetime.date.fromisoformat(it["date"])
+        rng = rng_for(item["seed"], PROPERTY, d.toordinal(), crc(it["rule"]))
+        params, functions = env.environment(d)
+        f = functions.get(it["name"])
+        if f is None or _rule_key(f) != it["rule"] or not shadow.is_scalar_rule(f):
+            res["rules_skipped"] += 1
+            continue
+        args = [a for a in shadow.rule_args(f) if not (a.endswith("_params") and a[:-7] in params)]
+        if any(a.endswith("_params") for a in args) or not args:
+            res["rules_skipped"] += 1
+            continue
+        pool = np.array(popgen.money_thresholds(params) or [100.0])
+        n = 64
+        cols = {a: gen_values(rng, a, arg_type(a, f, functions), n, pool) for a in args}
+        cols["p_id"] = np.arange(n)
+        for a in cols:
+            if a.startswith("p_id_"):
+                cols[a] = np.where(cols[a] == cols["p_id"], -1, np.clip(cols[a], -1, n - 1))
+        # feasibility pre-run on a private copy, so that the snapshot below really is "before"
+        _, errs = shadow.scalar_column(f, copy.deepcopy(params), {a: shadow.pylist(v, in_dag=False) for a, v in cols.items()}, n)
+        keep = [i for i, e in enumerate(errs) if e is None]
+        if len(keep) < 4:
+            res["rules_skipped"] += 1
+            continue
+        cols = {a: v[keep] for a, v in cols.items()}
+        kept = set(cols["p_id"].tolist())
+        for a in cols:
+            if a.startswith("p_id_"):
+                cols[a] = np.array([x if x in kept else -1 for x in cols[a].tolist()])
+        data = pd.DataFrame(cols)
+        p_snap, f_snap, d_snap = copy.deepcopy(params), dict(functions), data.copy(deep=True)
+        try:
+            with warnings.catch_warnings():
+                warnings.simplefilter("ignore")
+                env.compute_taxes_and_transfers(data, params, functions, targets=[it["name"]])
+        except Exception:  # noqa: BLE001
+            res["rules_skipped"] += 1
+            continue
+        res["rules_run"] += 1
+        bad = env.deep_equal(p_snap, params, "params")
+        if bad:
+            res["violations"].append(dict(key="mutation:params", what=f"computing {it['rule']} at {it['date']} modified the caller's parameters: {bad[:300]}", history=[it]))
+        if f_snap != functions or any(f_snap[k] is not functions[k] for k in functions):
+            res["violations"].append(dict(key="mutation:functions", what=f"computing {it['rule']} at {it['date']} modified the caller's functions", history=[it]))
+        if not data.equals(d_snap) or list(data.dtypes) != list(d_snap.dtypes):
+            res["violations"].append(dict(key="mutation:data_values", what=f"computing {it['rule']} at {it['date']} modified the caller's data", history=[it]))
+    return res
 
 
 def _run_fresh(history, timeout=600):
@@ -91,6 +171,8 @@ def _run_fresh(history, timeout=600):
 
 
 def run_item(item):
+    if item.get("kind") == "rule_purity":
+        return _rule_purity(item)
     from vf.core import rng_for
 
     rng = rng_for(item["seed"], PROPERTY, item["k"])
@@ -145,8 +227,10 @@ def run_item(item):
 
 
 def summarize(results, tier, seed):
-    ok = [r for r in results if "_harness_error" not in r]
-    viol = [dict(key=v["key"], what=v["what"], witness=v, item=r["_item"]) for r in ok for v in r["violations"]]
+    ok_all = [r for r in results if "_harness_error" not in r]
+    viol = [dict(key=v["key"], what=v["what"], witness=v, item=r["_item"]) for r in ok_all for v in r["violations"]]
+    purity = [r for r in ok_all if r.get("kind") == "rule_purity"]
+    ok = [r for r in ok_all if r.get("kind") != "rule_purity"]
     kinds = {}
     for r in ok:
         for k, v in r["op_kinds"].items():
@@ -158,12 +242,16 @@ def summarize(results, tier, seed):
         inconclusive.append("no repeated call inside a history")
     if kinds.get("vectorize", 0) == 0:
         inconclusive.append("no function rewrite inside any history")
+    if sum(r["rules_run"] for r in purity) < 100:
+        inconclusive.append("argument-purity sweep ran fewer than 100 rules")
     cov = dict(
         evaluations=sum(r["ops"] for r in ok) + sum(r["singles"] for r in ok),
         distinct_nontrivial=len(ok),
         rule="evaluation = one API call inside a history or alone in a fresh interpreter; distinct non-trivial = "
              "histories (each a different random sequence of >= 12 ops with at least one simulation)",
-        histories=len(ok), ops_by_kind=kinds, simulations_in_histories=sum(r["sims"] for r in ok),
+        histories=len(ok), ops_by_kind=kinds,
+        rules_run_alone_with_argument_snapshots=sum(r["rules_run"] for r in purity),
+        rules_skipped_in_purity_sweep=sum(r["rules_skipped"] for r in purity), simulations_in_histories=sum(r["sims"] for r in ok),
         distinct_calls_replayed_in_fresh_interpreters=sum(r["singles"] for r in ok),
         repeated_calls_compared=sum(r["repeats_compared"] for r in ok),
         module_state_changes_observed=[s for r in ok for s in r["state_changes"]][:10],
